@@ -30,7 +30,8 @@ def run(ctx):
         "Point.projective_coords", "Point.affine_coords",
         "Point.in_affine_chart", "PointPair.endpoint_affine_coords",
         "PointPair.endpoint_projective_coords", "Polygon.in_standard_chart",
-        "None.affine_coords", "None.projective_coords"})
+        "None.affine_coords", "None.projective_coords",
+        "Transformation.diagonalize", "Transformation.inv"})
     ctx.do(SI.rule_eig1, only={"Transformation.eigenvector", "Transformation.diagonalize"})
     ctx.do(SI.rule_svd1)
     ctx.do(MI.rule_eigh2, ["geometry_tools/projective.py", "geometry_tools/utils/core.py", "geometry_tools/hyperbolic.py"])
